@@ -242,10 +242,84 @@ func runC12(p *an.Prog, r *an.Run, tier string) {
 		r.Check(okKeep, "setnode-keeps-peers", "memory.SetNode", sn.Pos(), "a re-registered node keeps the peers tracked for it", "memory.SetNode stores a node entry whose peer set does not come from the existing entry: re-registering (every reconnect) forgets the node's tracked peers, unlike the persistent driver")
 	}
 
-	// ---- fresh-decode (badger)
+	badDec, nDec := freshDecodeViolations(p, func(fn *ssa.Function) bool { return true })
+	r.Floor("decode-sites", nDec, 8)
+	r.Check(len(badDec) == 0, "fresh-decode", "package badger", token.NoPos, "every struct/map decode target is fresh or reset", "%s", strings.Join(badDec, "; "))
+}
+
+func resolveAlloc(root ssa.Value) *ssa.Alloc {
+	switch x := root.(type) {
+	case *ssa.Alloc:
+		return x
+	case *ssa.FreeVar:
+		fn := x.Parent()
+		if par := fn.Parent(); par != nil {
+			for i, fv := range fn.FreeVars {
+				if fv == x {
+					var out *ssa.Alloc
+					an.AllInstrs(par, func(in ssa.Instruction) {
+						if mc, ok := in.(*ssa.MakeClosure); ok && mc.Fn == fn && i < len(mc.Bindings) {
+							out = resolveAlloc(mc.Bindings[i])
+						}
+					})
+					return out
+				}
+			}
+		}
+	}
+	return nil
+}
+
+// unregisteredByNodeMiss: every return of ErrUnregisteredNode is controlled by a condition that derives from a read of the node space.
+func unregisteredByNodeMiss(p *an.Prog, d *types.Named, m *ssa.Function) bool {
+	ops := driverOps(p, d, m)
+	nodeReads := filterOps(ops, func(o storeOp) bool { return o.Kind == opRead && o.inSpace("node") })
+	found, okAll := false, true
+	for _, fn := range an.WithAnon(m) {
+		an.AllInstrs(fn, func(in ssa.Instruction) {
+			// uses of the sentinel: returned or stored into the named result
+			u, ok := in.(*ssa.UnOp)
+			if !ok || u.Op != token.MUL {
+				return
+			}
+			g, ok := u.X.(*ssa.Global)
+			if !ok || g.Name() != "ErrUnregisteredNode" {
+				return
+			}
+			found = true
+			okOne := false
+			for _, c := range an.ControllingIfs(u.Block()) {
+				dc := p.Derives(0, c.If.Cond)
+				for _, rd := range nodeReads {
+					if v, ok := rd.In.(ssa.Value); ok && (dc.HasValue(v) || derivesFromLookup(dc, v)) {
+						okOne = true
+					}
+					// the miss may surface as the error of the transaction that performed the read
+					for _, reg := range txnRegions(p, m) {
+						if reg.Closure != nil && isNested(rd.Fn, reg.Closure) {
+							if v, ok := reg.Call.(ssa.Value); ok && dc.HasValue(v) {
+								okOne = true
+							}
+						}
+					}
+				}
+			}
+			if !okOne {
+				okAll = false
+			}
+		})
+	}
+	return found && okAll
+}
+
+// freshDecodeViolations: struct/map gob decode targets of the persistent driver that are reused without reset.
+func freshDecodeViolations(p *an.Prog, want func(*ssa.Function) bool) ([]string, int) {
 	var badDec []string
 	nDec := 0
 	for _, fn := range badgerPkgFuncs(p) {
+		if !want(fn) {
+			continue
+		}
 		for _, c := range an.Calls(fn, false) {
 			f := an.CallObj(c)
 			var target ssa.Value
@@ -326,11 +400,34 @@ func runC12(p *an.Prog, r *an.Run, tier string) {
 					reused = true
 				}
 			} else {
-				// allocated in the enclosing function, decoded in a closure: reused if the closure's call site is in a loop
-				// or the decode itself is in a loop of the closure
+				// allocated in an enclosing function, decoded in a closure: reused if the decode itself loops, or if the
+				// closure is created again (next iteration) without the target having been re-allocated or reset on the way
 				if inLoop(c.(ssa.Instruction)) {
 					reused = true
 				}
+				enc := al.Parent()
+				an.AllInstrs(enc, func(in ssa.Instruction) {
+					mc, ok := in.(*ssa.MakeClosure)
+					if !ok {
+						return
+					}
+					cf, _ := mc.Fn.(*ssa.Function)
+					if cf == nil || !isNested(fn, cf) {
+						return
+					}
+					isFresh := func(x ssa.Instruction) bool {
+						if x == ssa.Instruction(al) {
+							return true
+						}
+						if st, ok := x.(*ssa.Store); ok && st.Addr == ssa.Value(al) {
+							return true // whole-record reset
+						}
+						return false
+					}
+					if an.PathAvoiding(enc, mc, isFresh, func(x ssa.Instruction) bool { return x == ssa.Instruction(mc) }, nil) != nil {
+						reused = true
+					}
+				})
 			}
 			// an explicit reset (store of a zero composite) before the decode in the same iteration is accepted
 			if reused {
@@ -338,71 +435,5 @@ func runC12(p *an.Prog, r *an.Run, tier string) {
 			}
 		}
 	}
-	r.Floor("decode-sites", nDec, 8)
-	r.Check(len(badDec) == 0, "fresh-decode", "package badger", token.NoPos, "every struct/map decode target is fresh or reset", "%s", strings.Join(badDec, "; "))
-}
-
-func resolveAlloc(root ssa.Value) *ssa.Alloc {
-	switch x := root.(type) {
-	case *ssa.Alloc:
-		return x
-	case *ssa.FreeVar:
-		fn := x.Parent()
-		if par := fn.Parent(); par != nil {
-			for i, fv := range fn.FreeVars {
-				if fv == x {
-					var out *ssa.Alloc
-					an.AllInstrs(par, func(in ssa.Instruction) {
-						if mc, ok := in.(*ssa.MakeClosure); ok && mc.Fn == fn && i < len(mc.Bindings) {
-							out = resolveAlloc(mc.Bindings[i])
-						}
-					})
-					return out
-				}
-			}
-		}
-	}
-	return nil
-}
-
-// unregisteredByNodeMiss: every return of ErrUnregisteredNode is controlled by a condition that derives from a read of the node space.
-func unregisteredByNodeMiss(p *an.Prog, d *types.Named, m *ssa.Function) bool {
-	ops := driverOps(p, d, m)
-	nodeReads := filterOps(ops, func(o storeOp) bool { return o.Kind == opRead && o.inSpace("node") })
-	found, okAll := false, true
-	for _, fn := range an.WithAnon(m) {
-		an.AllInstrs(fn, func(in ssa.Instruction) {
-			// uses of the sentinel: returned or stored into the named result
-			u, ok := in.(*ssa.UnOp)
-			if !ok || u.Op != token.MUL {
-				return
-			}
-			g, ok := u.X.(*ssa.Global)
-			if !ok || g.Name() != "ErrUnregisteredNode" {
-				return
-			}
-			found = true
-			okOne := false
-			for _, c := range an.ControllingIfs(u.Block()) {
-				dc := p.Derives(0, c.If.Cond)
-				for _, rd := range nodeReads {
-					if v, ok := rd.In.(ssa.Value); ok && (dc.HasValue(v) || derivesFromLookup(dc, v)) {
-						okOne = true
-					}
-					// the miss may surface as the error of the transaction that performed the read
-					for _, reg := range txnRegions(p, m) {
-						if reg.Closure != nil && isNested(rd.Fn, reg.Closure) {
-							if v, ok := reg.Call.(ssa.Value); ok && dc.HasValue(v) {
-								okOne = true
-							}
-						}
-					}
-				}
-			}
-			if !okOne {
-				okAll = false
-			}
-		})
-	}
-	return found && okAll
+	return badDec, nDec
 }
